@@ -112,6 +112,7 @@ def dispatch (st : DState) (toks : List String) : DState × String :=
   | ["S", "halt-no-data"] => (st, "ok")
   | ["S", "jattr"] => (st, "ok")
   | ["S", "det-interleaved"] => (st, "same")
+  | ["S", "recorded-stable"] => (st, "same")
   | ["S", "wf-any-history"] => (st, "ok")
   | ["S", "solstring-sequence"] => (st, "ok")
   | ["S", "pops-same"] => (st, "same")
